@@ -64,3 +64,16 @@ Definition int_to_float_bits (mant bias : N) (x : N) : N :=
     (e + bias) * 2 ^ mant + (q' - 2 ^ mant).
 Definition f32_bits_of_N := int_to_float_bits 23 127.
 Definition f64_bits_of_N := int_to_float_bits 52 1023.
+
+(* math.Float64bits of a computed float (NaN payloads are not observable on primitive floats: callers handle NaN inputs on the bit level) *)
+Definition f64_bits (f : float) : N :=
+  match Prim2SF f with
+  | S754_zero s => if s then two63 else 0
+  | S754_infinity s => (if s then two63 else 0) + 9218868437227405312
+  | S754_nan => 9221120237041090561
+  | S754_finite s m e =>
+      let m := Npos m in
+      (if s then two63 else 0) +
+      (if 4503599627370496 <=? m then Z.to_N (e + 1075)%Z * 4503599627370496 + (m - 4503599627370496) else m)
+  end.
+Definition f64_is_nan_bits (b : N) : bool := ((b / 4503599627370496) mod 2048 =? 2047) && negb (b mod 4503599627370496 =? 0).
